@@ -724,7 +724,41 @@ class CallMixin(object):
                 return r
         if name in EXC_NAMES:
             return ExcValue(name, args)
+        if name == "dict.fromkeys" and len(args) == 1:
+            src = args[0].seq if isinstance(args[0], GenVal) else args[0]
+            if isinstance(src, SymSeq):
+                return self.ordered_dedup(src)
         raise OutOfSubset("builtin %s" % name)
+
+    def ordered_dedup(self, src):
+        """``dict.fromkeys(seq)`` (insertion-ordered, first occurrence kept), as the key sequence: a SUBSEQUENCE
+        r[k] = seq[idx(k)] with idx strictly increasing, idx(0) == 0, pairwise distinct elements, and equal to seq
+        itself when seq has no repeated element.  (Over-approximation: how many repeats are dropped is left open.)"""
+        from .core import fresh_name
+        n = z3num(src.length)
+        L = z3.Int(fresh_name("dedup.len"))
+        idx = z3.Function(fresh_name("dedup.idx"), z3.IntSort(), z3.IntSort())
+        i, j = z3.Int(fresh_name("i")), z3.Int(fresh_name("j"))
+        self.path.assume(z3.And(L >= 0, L <= n, z3.Implies(n >= 1, z3.And(L >= 1, idx(0) == 0))))
+        self.path.assume(z3.ForAll([i], z3.Implies(z3.And(0 <= i, i < L), z3.And(0 <= idx(i), idx(i) < n)), patterns=[idx(i)]))
+        self.path.assume(z3.ForAll([i, j], z3.Implies(z3.And(0 <= i, i < j, j < L), idx(i) < idx(j)), patterns=[z3.MultiPattern(idx(i), idx(j))]))
+        def same(a, b):
+            try:
+                ia, ib = ops.str_ident(a), ops.str_ident(b)
+                if ia is not None and ib is not None:
+                    return ia == ib
+            except OutOfSubset:
+                pass
+            return ops.equals(self, a, b)
+        ne = same(src.at(i), src.at(j))
+        if not isinstance(ne, bool):
+            all_distinct = z3.ForAll([i, j], z3.Implies(z3.And(0 <= i, i < j, j < n), z3.Not(ne)))
+            self.path.assume(z3.Implies(all_distinct, z3.And(L == n, z3.ForAll([i], z3.Implies(z3.And(0 <= i, i < n), idx(i) == i), patterns=[idx(i)]))))
+            ner = same(src.at(idx(i)), src.at(idx(j)))
+            if not isinstance(ner, bool):
+                self.path.assume(z3.ForAll([i, j], z3.Implies(z3.And(0 <= i, i < j, j < L), z3.Not(ner)), patterns=[z3.MultiPattern(idx(i), idx(j))]))
+        self.note_assumption("dict.fromkeys(seq): ordered de-duplication, modelled as a subsequence that equals seq when seq has no repeats")
+        return SymSeq(L, lambda k, src=src, idx=idx: src.at(idx(z3num(k))), "dedup")
 
     def sym_zip(self, args):
         seqs = []
